@@ -126,7 +126,7 @@ ASSUMPTIONS = [
 ]
 TRUSTED_BASE = ['vf/sim/vloop.py', 'the CATALOGUE table in vf/monitors/c21.py', 'CPython asyncio']
 SHARDS = {'quick': 1, 'thorough': 16}
-TIMEOUT = {'quick': 300, 'thorough': 1500}
+TIMEOUT = {'quick': 900, 'thorough': 1500}
 FLOORS = {
     'evaluations': 5000,
     'distinct': 3000,
